@@ -100,11 +100,11 @@ CHECKS = {
                      'at the word size (operands/intermediates outside the signed word range), listed in known_findings.json and demonstrated on every run.',
                 note=TB + ' The known finding fold-int-no-wrap is excluded by its predicate; every other disagreement is reported.'),
     'C17': dict(cat='translation_validation', ref='5 C17', engine='SVM',
-                technique='symbolic execution of the emitted library routines (z3): whole-word decimal specification at 16 bit (24 bit thorough), per-iteration lemmas on the real routine from symbolic loop states at 32/64 bit, stack-size sweep for caller state',
-                text='write(int) prints the signed decimal representation for all 65536 values at 16 bit (all 2^24 in the thorough tier) incl. MIN and 0; at wider words the prologue, one digit-loop iteration and the epilogue of the real routine '
+                technique='symbolic execution of the emitted library routines (z3): whole-word decimal specification at 16 bit, per-iteration lemmas on the real routine from symbolic loop states at 24/32/64 bit, stack-size sweep for caller state',
+                text='write(int) prints the signed decimal representation for all 65536 values at 16 bit incl. MIN and 0 (the whole-word query at 24 bit is beyond the solvers here: unknown after 40 minutes); at wider words the prologue, one digit-loop iteration and the epilogue of the real routine '
                      'are decided for the whole word from arbitrary symbolic states, plus boundary constants; write(bool/byte/string/byte arrays) and writeln emit exactly the symbolic contents for lengths 0..8 (0..64 thorough); caller locals and arrays '
                      'are unchanged around each call at every stack size.',
-                note=TB + ' At 32/64 bit the composition of the three lemmas over the <= 20 iterations is an induction on paper.'),
+                note=TB + ' At 24/32/64 bit the composition of the three lemmas over the <= 20 iterations is an induction on paper.'),
     'C18': dict(cat='translation_validation', ref='5 C18', engine='SVM',
                 technique='stack-size sweep and cross-word-size differential on the symbolic VM (z3 decides the equivalence obligations); hash-seed and lint clauses as auxiliary concrete differentials',
                 text='PARTIAL: solver-decided: (b) every run that does not overflow equals the generous-stack run at every stack size and overflow is monotone; (c) with sign-extended inputs and under the recorded no-overflow conditions of the narrow run, '
